@@ -1,7 +1,45 @@
-(* C18 - compaction never changes what the database contains. Statements only (work in progress). *)
-From RV Require Import Base.Bytes Model.LsmBase Model.LsmCompaction.
+(* C18 - compaction never changes what the database contains.  Statements only; proofs in Proofs/C18_*.v.
+   Model: Model/LsmCompaction.v (Compactor.Compact transcribed) over the entry-level layouts of Model/LsmBase.v. *)
+From Coq Require Import List NArith.
+From RV Require Import Base.Bytes Model.LsmBase Model.LsmCompaction Model.Lsm
+  Proofs.C18_Layout Proofs.C18_Main Proofs.C07_Refine Proofs.C07_Corollaries.
+Import ListNotations.
 Open Scope N_scope.
 
-Theorem pct_zero : forall b, pct 0 b = 0.
-Proof. reflexivity. Qed.
-Print Assumptions pct_zero.
+(* For EVERY table-size function, EVERY compactor setting (target table size >= 1, level-0 trigger >= 1, any
+   amplification percentage and level-size constants), every value of the minor-compaction cursor, EVERY valid layout
+   [ll] and EVERY list [extra] of level-0 tables that arrive between Compact and the application of its change set
+   (such that the layout with them is still valid, as flushes guarantee): the layout after the step is valid again
+   (tables key-sorted and non-empty, levels >= 1 range-sorted and disjoint, level 0 in sequence-number order, per key
+   newer data never below older), Get of every key and ScanPrefix of every prefix are unchanged, the merged view (per
+   key the newest version) is unchanged - so no overwritten or deleted value reappears - and no entry is invented. *)
+Theorem compact_preserves :
+  forall tsize cfg mcl ll extra cs mcl',
+  good_cfg cfg -> valid (add_l0 extra ll) -> compact tsize cfg mcl ll = (Some cs, mcl') ->
+  let ll1 := add_l0 extra ll in
+  let ll2 := apply_cs cs ll1 in
+  valid ll2 /\ (forall k, ll_get k ll2 = ll_get k ll1) /\ (forall p, ll_scan p ll2 = ll_scan p ll1) /\
+  view ll2 = view ll1 /\ (forall e, ents ll2 e -> ents ll1 e).
+Proof. exact compact_preserves_proof. Qed.
+Print Assumptions compact_preserves.
+
+(* what "visible value" means on a valid layout: Get returns the version with the greatest sequence number of the whole
+   layout, ScanPrefix the live ones of those, ascending *)
+Theorem get_is_newest :
+  forall ll k, valid ll ->
+  match ll_get k ll with
+  | Some m => ents ll m /\ ekey m = k /\ forall e, ents ll e -> ekey e = k -> eseq e <= eseq m
+  | None => forall e, ents ll e -> ekey e <> k
+  end.
+Proof. exact ll_get_newest. Qed.
+Print Assumptions get_is_newest.
+
+Theorem scan_is_newest : forall ll p, valid ll -> ll_scan p ll = without_deletes (tbl_scan p (view ll)).
+Proof. exact ll_scan_newest. Qed.
+Print Assumptions scan_is_newest.
+
+(* the layouts the database reaches by flushes and compactions are valid, for every history and schedule *)
+Theorem reachable_layouts_valid :
+  forall cfg acts st os, cfg_ok cfg -> run cfg (init cfg) acts = Some (st, os) -> valid (lv st).
+Proof. intros cfg acts st os H1 H2. exact (proj2 (proj2 (reachable_proof cfg acts st os H1 H2))). Qed.
+Print Assumptions reachable_layouts_valid.
